@@ -16,7 +16,7 @@ let int_of_z = function Z0 -> 0 | Zpos p -> int_of_pos p | Zneg p -> - (int_of_p
 
 exception Bad of string
 let tokens line = List.filter (fun s -> s <> "") (String.split_on_char ' ' (String.trim line))
-let flavour_of = function 0 -> FInt | 1 -> FMod | 2 -> FNan | 3 -> FNever | 4 -> FNoEq | 5 -> FLoose | _ -> raise (Bad "flavour")
+let flavour_of = function 0 -> FInt | 1 -> FMod | 2 -> FNan | 3 -> FNever | 4 -> FNoEq | 5 -> FLoose | 6 -> FText | _ -> raise (Bad "flavour")
 
 let read_lines f =
   let ic = open_in f in
